@@ -9,7 +9,7 @@ TB = ("TLC and the CommunityModules JSON reader; the Python generator/projection
 CHECKS = {
  "C04": dict(
     technique="TLA+ model (MC_Breakdown: merge + sweep, all tie orders) checked by TLC + TLC trace validation of get_temporal_breakdown outputs (Trace_Breakdown)",
-    text="TLC exhausts every multiset of <=3 activities (4 classes, grid 0..3, durations 0..2) and every order an unstable sort may give equal keys, with loop invariants per iteration; 300 (quick) / 4000 (thorough) generated traces are run through TraceAnalysis.get_temporal_breakdown and every output is checked by TLC against the declarative cell-counting operators the model uses.",
+    text="TLC exhausts every multiset of <=3 activities (4 classes, grid 0..3, durations 0..2) and every order an unstable sort may give equal keys, with loop invariants per iteration; 300 (quick) / 4000 (thorough) generated traces are run through TraceAnalysis.get_temporal_breakdown and every output is checked by TLC against the declarative cell-counting operators the model uses; 30% of the cases make 1-3 other public calls on the object first (behaviours of Session.tla). All 454 interval multisets of MC_MergeEmit are replayed into merge_kernel_intervals.",
     note="Exhaustive only in the small scope; beyond it sampled. Inputs to the analyzer are taken from the loaded frames. " + TB,
     ref="DESIGN.md section 5 (C04)"),
  "C07": dict(
@@ -19,7 +19,7 @@ CHECKS = {
     ref="DESIGN.md section 5 (C07)"),
  "C01": dict(
     technique="TLA+ loader pipeline model (MC_Load: Parse/Align/Trim/Index, rounding lemma) checked by TLC + TLC trace validation (Trace_Load) of parse-only and fully loaded frames against the file image",
-    text="TLC exhausts the pipeline over a menu of rank files (half-microsecond ticks, optional steps/launch/kernel, 1-2 ranks with skew) with invariants Faithful, MinTsMeaning, EndIsTsPlusDur, NoTrimNoLoss, Rounding; 200/3000 generated file sets (1-4 ranks, mixed formats, fractional timestamps, epoch offsets up to 1.7e15) are parsed (sequentially and by the process pool) and loaded by the real code and every row is compared by TLC with the declarative image Image(F,u), the shift constant MinTs and end = ts + dur.",
+    text="TLC exhausts the pipeline over a menu of rank files (half-microsecond ticks, optional steps/launch/kernel, 1-2 ranks with skew) with invariants Faithful, MinTsMeaning, EndIsTsPlusDur, NoTrimNoLoss, Rounding; 200/3000 generated file sets (1-4 ranks, mixed formats, fractional timestamps, epoch offsets up to 1.7e15) are parsed (sequentially and by the process pool) and loaded by the real code and every row is compared by TLC with the declarative image Image(F,u), the shift constant MinTs and end = ts + dur. In addition the object model Session.tla (15 public calls; 3375 histories of three calls enumerated by TLC) is replayed on real TraceAnalysis objects (120/1500 histories): after every call the loader's columns must be intact and the derived columns those the model predicts (Trace_Session).",
     note="Name/category decoding via the real symbol table; base subtraction and JSON handling by the harness with exact arithmetic. " + TB,
     ref="DESIGN.md section 5 (C01)"),
  "C02": dict(
@@ -49,7 +49,7 @@ CHECKS = {
     ref="DESIGN.md section 5 (C06)"),
  "C03": dict(
     technique="TLA+ transcription of both endpoint comparators + stack machine (MC_CallStack) checked by TLC over every laminar family of <=3 (thorough 4) spans and every sort outcome + TLC trace validation of both builders and of CallGraph against the declarative tree (Trace_CallStack)",
-    text="TLC checks, for every properly nested family on the grid 0..3 with every id assignment, that the transcribed comparator is a strict total order, that a minimal endpoint always exists, that closes pop their own event (LIFO) and that the machine's parents/depths equal the declarative tree (innermost enclosing positive span; identical spans in file order; touching spans siblings; zero-duration events under a closed-span container); the d6 configurations make TLC exhibit the known non-transitive shape. 400/5000 generated thread families (dense tie grids and program-simulated threads) go through trace_call_stack.CallStackGraph, call_stack.CallStackGraph and CallGraph; TLC judges every returned (parent, depth).",
+    text="TLC checks, for every properly nested family on the grid 0..3 with every id assignment, that the transcribed comparator is a strict total order, that a minimal endpoint always exists, that closes pop their own event (LIFO) and that the machine's parents/depths equal the declarative tree (innermost enclosing positive span; identical spans in file order; touching spans siblings; zero-duration events under a closed-span container); the d6 configurations make TLC exhibit the known non-transitive shape. 400/5000 generated thread families (dense tie grids and program-simulated threads) go through trace_call_stack.CallStackGraph, call_stack.CallStackGraph and CallGraph; TLC judges every returned (parent, depth). All 576 endpoint pairs of MC_Comparators are replayed into _less_than / compare_events (transcription binding).",
     note="Known finding D6 (zero-duration event where one positive span ends and another begins) is suppressed only for that shape and the parent clauses; everything else is reported. " + TB,
     ref="DESIGN.md section 5 (C03)"),
  "C13": dict(
@@ -64,7 +64,7 @@ CHECKS = {
     ref="DESIGN.md section 5 (C16)"),
  "C05": dict(
     technique="TLA+ merge + bit-mask sweep model (MC_Breakdown, invariant C05_TypeTable, all tie orders) checked by TLC + TLC trace validation of get_gpu_kernel_breakdown (type table and per-kernel table) in Trace_Breakdown",
-    text="The sweep model (shared with C04/C07) proves for every small multiset and tie order that the accumulated time per running mask equals the time during which exactly that combination runs; 300/4000 generated traces x num_kernels {1,2,3,10} x duration_ratio {0.1,0.5,0.8,1} x include_memory_kernels are run through the real API and TLC checks every type row (Exactly summed over ranks, total, percentages) and, per (rank, type): conservation of the sums incl. 'others', the bound on named rows, and sum/min/max/mean of every named row.",
+    text="The sweep model (shared with C04/C07) proves for every small multiset and tie order that the accumulated time per running mask equals the time during which exactly that combination runs; 300/4000 generated traces x num_kernels {1,2,3,10} x duration_ratio {0.1,0.5,0.8,1} x include_memory_kernels are run through the real API and TLC checks every type row (Exactly summed over ranks, total, percentages) and, per (rank, type): conservation of the sums incl. 'others', the bound on named rows, and sum/min/max/mean of every named row; a quarter of the cases go through the aggregator's second entry point get_gpu_user_annotation_breakdown (CPU or GPU annotations, allow-list on/off).",
     note="Which names are folded into 'others' is left open (the statement does not fix it). " + TB,
     ref="DESIGN.md section 5 (C05)"),
  "C17": dict(
